@@ -8,6 +8,7 @@ fn run_case(case: &Value) -> Result<String, String> {
     match kind {
         "hll_coupons" => Ok(crate::hllm::replay(case)),
         "cpc_pairs" => Ok(crate::cpcm::replay(case)),
+        "theta_ops" => Ok(crate::thetam::replay(case)),
         "hll_two_orders" => {
             let lg_k = case["lg_k"].clone();
             let start: Vec<Value> = case["start"].as_array().cloned().unwrap_or_default();
